@@ -126,6 +126,9 @@ func methodClass(m string) string {
 
 // crossOriginObligations implements the positive half of C07.
 func crossOriginObligations(o *world.Obs, r *Result, prop string) {
+	if Tampered(o) {
+		return // entries removed or rewritten behind the cache's back: no obligation to serve them
+	}
 	// Build a copy of the log without unsafe exchanges whose target origin differs from every
 	// stored entry they name; then obligations of that filtered history that concern a URL
 	// named cross-origin by a dropped exchange must hold in the real history.
